@@ -23,7 +23,7 @@ RULE = ("cases = (left value, right value, operator, left producer, right produc
 ASSUMPTIONS = ["vlib/ref/evaluate.py compare()/json_eq() implement RFC 9535 2.3.5.2.2 (self-tested against table 11 examples)",
                "numbers compare by exact numeric value of the int/float objects json.load produces"]
 TECHNIQUE = "Hypothesis property-based testing over a kind x kind x operator x producer grid, oracle = RFC comparison table in the reference evaluator"
-LEVEL_TEXT = ("Generated comparand pairs of every kind (with near-equal traps) x 6 operators x 7 producers, each "
+LEVEL_TEXT = ("Generated comparand pairs of every kind (with near-equal traps) x 6 operators x 9 producers (literal, relative, absolute, value(), id(), length(), nested, one step into the value by index or by name), each "
               "observed through a real filter and compared with the RFC table; thorough covers the whole "
               "kind x kind x op x producer grid with random values per cell. Sampled values.")
 LEVEL_NOTE = "Trusted: reference compare(); probe function id() registered through the public function_extensions mapping."
@@ -44,7 +44,7 @@ VALUES = {
             {"b": None}, {"a": 1, "x": None}, {"a": 1, "y": None}, {"a": {"x": None}}, {"a": {"y": None}}, {"a": None, "b": None}],
 }
 KINDS = list(VALUES) + ["nothing"]
-PRODUCERS = ["literal", "rel", "abs", "value", "id", "length", "nested"]
+PRODUCERS = ["literal", "rel", "abs", "value", "id", "length", "nested", "into-index", "into-name"]
 NOTHING_PRODUCERS = ["rel-missing", "abs-missing", "value-many", "length-nonsized", "id-missing"]
 
 REGISTRY = dict(BUILTINS)
@@ -99,6 +99,11 @@ def comparand(side, producer, value):
         return ["call", "length", [q_name("@", k)]]
     if producer == "nested":
         return ["q", "@", [["child", [["name", "w"]]], ["child", [["index", 0 if side == 0 else -1]]]]]
+    if producer == "into-index":
+        # one step *into* the value: an element of an array, nothing at all for a string, a number, an object ...
+        return ["q", "@", [["child", [["name", k]]], ["child", [["index", 0 if side == 0 else -1]]]]]
+    if producer == "into-name":
+        return ["q", "$", [["child", [["name", K]]], ["child", [["name", "a"]]]]]
     if producer == "rel-missing":
         return q_name("@", "missing")
     if producer == "abs-missing":
@@ -303,7 +308,7 @@ def run_shard(spec, shard):
 
         drive(rng(), 1, spec["seed"], gbody)
         shard.exhaustive["kind-x-kind-x-op-x-producer-grid"] = (
-            f"{len(cells)} cells (8 kinds^2 x 6 ops x 7^2 producers), every cell visited with random values")
+            f"{len(cells)} cells (8 kinds^2 x 6 ops x 9^2 producers), every cell visited with random values")
     drive(rng(), spec["n"], spec["seed"] + 7, body)
 
     if spec["shard"] == 0:
